@@ -6,7 +6,8 @@
     step), configurations, contexts, sent events and meta-event streams must be identical; with
     ignore_contract=True no condition may be evaluated and, when every condition is made false,
     no ContractError may be raised and the run must still be the same.
-(B) shipped charts: elevator_contract.yaml and microwave_with_contracts.yaml explored by BFS over
+(B) shipped charts (elevator_contract.yaml, microwave_with_contracts.yaml) and a synthetic timed chart
+    (after/idle guards on states with internal transitions) explored by BFS over
     their own event alphabet / clock moves, contracts on vs ignore_contract=True in lock-step
     (branches where a contract fails are not continued)."""
 import collections
@@ -16,7 +17,7 @@ import time as _time
 from mc import harness, engine, schemes, probes, SISMIC_SRC
 from mc.chartgen import skeletons, flatten, add_scheme_S, has_variant, describe
 
-from sismic.exceptions import ContractError
+from sismic.exceptions import ContractError, NonDeterminismError, ConflictingTransitionsError
 from sismic.interpreter import Interpreter
 from sismic.io import import_from_yaml
 from sismic.model import Event
@@ -160,13 +161,79 @@ SHIPPED = {
                            ('ev', 'floorSelected', (('floor', 3),)), ('clock', 1), ('clock', 10)]),
     'microwave_with_contracts': ('docs/examples/microwave/microwave_with_contracts.yaml', None),
 }
+# a synthetic chart in the same lock-step exploration: time-dependent guards (after/idle) on states that stay
+# active while their own internal transitions fire, and (satisfied) contracts that use every contract-only name
+TIMED_YAML = """
+statechart:
+  name: timed
+  preamble: n = 0
+  root state:
+    name: root
+    initial: alive
+    contract:
+      - always: n >= 0
+    states:
+      - name: alive
+        contract:
+          - before: n >= 0
+          - always: idle(0) or not idle(0)
+          - after: n >= __old__.n
+        transitions:
+          - event: ping
+            action: n = n + 1
+            contract:
+              - before: active('alive')
+              - after: n == __old__.n + 1
+              - always: after(0)
+          - guard: idle(3)
+            target: expired
+            action: send('timeout')
+            contract:
+              - after: sent('timeout')
+          - guard: after(7)
+            target: old
+          - event: move
+            target: par
+      - name: expired
+        transitions:
+          - event: ping
+            target: alive
+            contract:
+              - before: received('ping')
+      - name: old
+        transitions:
+          - guard: after(2)
+            target: alive
+      - name: par
+        contract:
+          - always: active('r1') and active('r2')
+        parallel states:
+          - name: r1
+            contract:
+              - always: after(0)
+            transitions:
+              - event: ping
+                action: n = n + 1
+              - guard: idle(2)
+                target: alive
+          - name: r2
+            contract:
+              - after: n >= __old__.n
+            transitions:
+              - event: tick
+                action: n = n + 2
+              - guard: idle(4) and n < 40
+                action: n = n + 10
+"""
+SHIPPED['timed (synthetic)'] = (None, [('ev', 'ping', ()), ('ev', 'move', ()), ('ev', 'tick', ()),
+                                       ('clock', 1), ('clock', 2)])
 _CH = {}
 
 
 def shipped(name):
     if name not in _CH:
         path, ops = SHIPPED[name]
-        sc = import_from_yaml(filepath=os.path.join(SISMIC_SRC, path))
+        sc = import_from_yaml(TIMED_YAML) if path is None else import_from_yaml(filepath=os.path.join(SISMIC_SRC, path))
         if ops is None:
             ops = [('ev', e, ()) for e in sc.events_for()] + [('clock', 1)]
         _CH[name] = (sc, ops)
@@ -191,6 +258,9 @@ def sh_apply(it, op, meta):
                                 for ms in st.steps)))
     except ContractError as e:
         return ('ContractError', type(e).__name__, str(e.condition))
+    except (NonDeterminismError, ConflictingTransitionsError) as e:
+        # nothing ran (C04); both runs must agree on it, the branch is not continued
+        return ('refused', type(e).__name__, tuple(steps), tuple(it.configuration), tuple(meta_sig(meta)))
     return ('ok', tuple(steps), tuple(it.configuration),
             repr(sorted((k, v) for k, v in it.context.items() if not callable(v))), tuple(meta_sig(meta)))
 
@@ -236,7 +306,7 @@ def sh_expand(task):
             b = ('crash', type(e).__name__)
         res['transitions'] += 1
         res['outcomes'][a[0]] += 1
-        if b[0] != 'ok':
+        if b[0] not in ('ok', 'refused'):
             res['nviol'] += 1
             res['violations'].append({'chart': name, 'hist': [list(o) for o in hist], 'op': list(op),
                                       'detail': 'ignore_contract=True run raised %r' % (b,)})
@@ -249,6 +319,8 @@ def sh_expand(task):
             if len(res['violations']) < 5:
                 res['violations'].append({'chart': name, 'hist': [list(o) for o in hist], 'op': list(op),
                                           'detail': 'with contracts %r, ignore_contract %r' % (a[i], b[i])})
+            continue
+        if a[0] == 'refused':
             continue
         res['children'].append(((name, sh_key(a_it)), (name, hist + (op,))))
     return res
@@ -293,7 +365,7 @@ def run(tier, seed):
         'programs': agg.programs + len(SHIPPED), 'states': agg.states + sagg.states,
         'transitions': agg.transitions + sagg.transitions,
         'traces_validated_against_impl': tot['comparisons'] + sagg.transitions,
-        'exhaustive': False, 'generated_exhaustive': agg.exhaustive,
+        'exhaustive': agg.exhaustive, 'state_space_closed': False,
         'condition_evaluations_with_contracts_on': tot['evaluations_with_contracts'],
         'shipped': {'depth': SHIPPED_DEPTH[tier], 'states': sagg.states, 'ops_compared': sagg.transitions,
                     'outcomes': dict(sagg.outcomes)},
